@@ -51,6 +51,7 @@ type verInfo struct {
 	cond     string // ite: condition selecting parent
 	storeRef string // store: reference written
 	storeVal string // store: value written
+	key      string // framed havoc: the heap key of this version
 	bound    string // havoc: allocation counter after the havoc (every reference in the new version is below it)
 }
 
@@ -106,6 +107,7 @@ type VC struct {
 	entryAx         map[string]bool
 	frameAxQ        map[string]bool
 	freshBase       string // while a callee's postconditions are evaluated: the allocation counter at the call
+	keyTags         map[string]string // heap key -> type tag of its objects
 	clauseNext      string // allocation counter of the state a contract clause is being evaluated in
 	frame           struct {
 		active bool
@@ -334,7 +336,7 @@ func (vc *VC) havocHeap(st *State, key string, limit string, exempt []string) {
 	n := vc.name("Hh_" + vc.sorts().shortName("heap:"+key))
 	vc.emit(fmt.Sprintf("(declare-const %s %s)", n, vc.heapSort[key]))
 	if limit != "" {
-		vc.ver[n] = &verInfo{kind: 3, parent: old, limit: limit, exempt: exempt, framed: true, bound: st.next}
+		vc.ver[n] = &verInfo{kind: 3, parent: old, limit: limit, exempt: exempt, framed: true, bound: st.next, key: key}
 	} else {
 		vc.ver[n] = &verInfo{kind: 0, bound: st.next}
 	}
@@ -382,7 +384,7 @@ func (vc *VC) frameFacts(ver, ref string) {
 	case 3:
 		conds := []string{fmt.Sprintf("(bvult %s %s)", ref, info.limit)}
 		for _, e := range info.exempt {
-			conds = append(conds, fmt.Sprintf("(not (= %s %s))", ref, e))
+			conds = append(conds, sNot(vc.exemptIs(info.key, ref, e)))
 		}
 		vc.assume(sImp(sAnd(conds...), fmt.Sprintf("(= (select %s %s) (select %s %s))", ver, ref, info.parent, ref)))
 		vc.frameFacts(info.parent, ref)
@@ -418,7 +420,7 @@ func (vc *VC) frameAxiomsQ(ver string, depth int) {
 	case 3:
 		conds := []string{fmt.Sprintf("(bvult g_fr %s)", info.limit)}
 		for _, e := range info.exempt {
-			conds = append(conds, fmt.Sprintf("(not (= g_fr %s))", e))
+			conds = append(conds, sNot(vc.exemptIs(info.key, "g_fr", e)))
 		}
 		vc.emit(fmt.Sprintf("(assert (forall ((g_fr (_ BitVec 64))) (! (=> %s (= (select %s g_fr) (select %s g_fr))) :pattern ((select %s g_fr)))))", sAnd(conds...), ver, info.parent, ver))
 		vc.frameAxiomsQ(info.parent, depth+1)
